@@ -139,6 +139,8 @@ def piece_xml(piece):  # noqa: F811 -- adds the "raw" piece used by plain_sheet
                 out.append("<text:tab/>")
             elif char == "\n":
                 out.append("<text:line-break/>")
+            elif char == "\r":
+                out.append("&#13;")   # (a carriage return is data only as a character reference: XML turns a literal one into LF)
             else:
                 out.append(escape(char))
         return "".join(out)
